@@ -36,12 +36,18 @@ type SpecEnv struct {
 	kind      string // requires ensures invariant site callsite event
 	header    *ssa.BasicBlock
 	allocBase string // objects with ref >= allocBase are "fresh"
+	point     *ssa.BasicBlock // program point at which source names are resolved
+	atEnd     bool
 	depth     int
 	bound     map[string]bool
 }
 
 func (vc *VC) specEnv(act *Act, st, old *State, kind string, header *ssa.BasicBlock) *SpecEnv {
 	env := &SpecEnv{vc: vc, st: st, old: old, vars: map[string]TV{}, pkg: act.fn.Pkg.Pkg, act: act, kind: kind, header: header, allocBase: "alloc0"}
+	env.point = header
+	if header == nil {
+		env.point, env.atEnd = act.curBlock, true
+	}
 	if act.fn.Pkg == nil {
 		env.pkg = nil
 	}
@@ -218,9 +224,12 @@ func (env *SpecEnv) lookupInAct(name string) (TV, bool) {
 					}
 					continue
 				}
-				if v, ok := a.env[nr.val]; ok {
-					// only usable when the definition dominates the current point
-					return TV{v, nr.val.Type()}, true
+				val := nr.val
+				if a == act {
+					val = reaching(nr, env.point, env.atEnd)
+				}
+				if v, ok := a.env[val]; ok {
+					return TV{v, val.Type()}, true
 				}
 			}
 		}
